@@ -16,7 +16,9 @@ PoOf(st, id) == st.ent.po[PoIdx(st, id)]
 \* only well-formed entries of the signer list authorise (GetParamEntSignersAsAddressArray)
 IsSigner(st, a) == Contains(st.ent.p.signers, a)
 
-NumDec(o, d) == Cardinality({ i \in DOMAIN o.dec : o.dec[i].d = d })
+\* how many SIGNERS decided d (each signer decides once: the same count as the number of entries in every state the
+\* specification reaches; on an observed order that holds two entries of one signer the rules count that signer once)
+NumDec(o, d) == Cardinality({ o.dec[i].s : i \in { j \in DOMAIN o.dec : o.dec[j].d = d } })
 
 ------------------------------------------------------------------------------
 (* MsgUndPurchaseOrder handler *)
